@@ -216,13 +216,18 @@ func runCase(r *hx.Run, c hx.Case) {
 	mc := hx.Case{ID: c.ID, Kind: "render", Args: append([]string{desc, "inf"}, c.Args[2:]...)}
 	r.Add(mc, fmt.Sprintf("ok %d %s", len(out), hx.Hex(out)), len(want) > 1)
 
-	// ---- direct oracle: independent reader ----
+	checkLeaves(r, c.ID, out, want, len(parts), len(embeds), len(attach))
+}
+
+// checkLeaves is the direct oracle: the independent reader applied to the rendered bytes finds the expected
+// nesting and, in order, one leaf per entry of want.
+func checkLeaves(r *hx.Run, id string, out []byte, want []leafWant, n, e, a int) {
+	c := hx.Case{ID: id}
 	ent, err := mimeread.Read(out)
 	if err != nil {
 		r.Fail(c.ID, "unreadable", err.Error())
 		return
 	}
-	n, e, a := len(parts), len(embeds), len(attach)
 	if n >= 1 {
 		if got, wantS := ent.Shape(), expectedShape(n, e, a); got != wantS {
 			r.Fail(c.ID, "nesting", fmt.Sprintf("shape %s, want %s", got, wantS))
@@ -280,6 +285,17 @@ func Run(r *hx.Run, replay []hx.Case) {
 	defer bytex.CleanTemp()
 	if replay != nil {
 		for _, c := range replay {
+			if c.Kind == "c01b" || c.Kind == "build" || (c.Kind == "render" && len(c.Args) >= 5 && c.Args[2] == "script") {
+				switch c.Kind {
+				case "build":
+					// the model case: <desc> <msgenc> <ops>
+					c = hx.Case{ID: c.ID, Kind: "c01b", Args: []string{c.Args[1], c.Args[2]}}
+				case "render":
+					c = hx.Case{ID: strings.TrimSuffix(c.ID, "-r"), Kind: "c01b", Args: []string{c.Args[3], c.Args[4]}}
+				}
+				runScript(r, c)
+				continue
+			}
 			if len(c.Args) < 6 {
 				r.Fail(c.ID, "bad-replay", "case needs 6 arguments")
 				continue
@@ -362,6 +378,7 @@ func Run(r *hx.Run, replay []hx.Case) {
 			runCase(r, hx.Case{ID: r.NewID(), Kind: "c01", Args: []string{"-", "inf", me, strings.Join(ps, ","), "-", "-"}})
 		}
 	}
+	genScripts(r, thorough)
 	// the degenerate shapes without a body (outside the quantifier; render must still match the model)
 	emit(0, 1, 0, "quoted-printable", ci)
 	emit(0, 0, 1, "quoted-printable", ci+1)
